@@ -143,6 +143,22 @@ def check_tx(res, N, exons, strand, cds, f0, a, b, cs="+"):
     # ---- CDS ---------------------------------------------------------------------------------------------------
     if not cds:
         return
+    # ---- UTRs: documented to be chunk-relative on a chunk; lifted back they are the chromosome twin's UTR restricted to the
+    # window (5'->3' order; nothing, i.e. an empty location, when the UTR has no base in the chunk)
+    Pcds_ = Ptx[cds[0] : cds[1]]
+    for name, full in (("get_5p_interval", Ptx[: cds[0]]), ("get_3p_interval", Ptx[cds[1] :])):
+        exp_u = [p for p in full if a <= p < b]
+        T5 = mk(chunk)
+        o = lib.outcome(getattr(T5, name))
+        res.trans()
+        res.note(name, ("cut" if len(exp_u) != len(full) else "whole") if exp_u else "nothing-inside")
+        ucase = dict(op=name, utr_cut=len(exp_u) != len(full), cds_cut=any(not (a <= p < b) for p in Pcds_), tx_cut=cuts, **case)
+        if o[0] != "ok":
+            if not inside and lib.is_documented_exc(o[2]):
+                continue  # the transcript has no base in the chunk at all
+            res.deviation(name, ucase, o[1], exp_u, sig=f"chunk-{name}-raises")
+        elif lift_back(o[1], a, b, cs) != exp_u:
+            res.deviation(name, ucase, lift_back(o[1], a, b, cs), exp_u, sig=f"chunk-{name}")
     allc = F.codons(F.exons_5to3(cb, strand), F.frames_5to3(frames, strand))
     inc = F.codons_in_window(allc, a, b)
     n_cds_inside = sum(1 for p in F.tx_positions(cb, strand) if a <= p < b)
